@@ -252,6 +252,13 @@ class Component( ComponentLevel7 ):
     for func, obj_name in provided_func_calls:
       parent._dsl.func_calls[func].add( eval(obj_name) )
 
+    # Restoring the connections and metadata by name may have spawned
+    # signals of obj (struct fields, slices) that did not exist yet when
+    # obj was collected above
+    spawned_signals = obj._collect_all_single( lambda x: isinstance( x, Signal ) ) - added_signals
+    top._dsl.all_signals       |= spawned_signals
+    top._dsl.all_named_objects |= spawned_signals
+
     del NamedObject._elaborate_stack
 
   def _delete_component( top, obj ):
